@@ -374,7 +374,13 @@ func c06Run(x *runCtx, ctx context.Context, w *lab.World, st *lab.MemState, k la
 			Impl: fmt.Sprintf("%d SetRVBlob entries although the reply was an error", len(stored)), PropertyFails: true})
 	}
 	// model
+	c06LastEntriesOK = ""
 	model := c06Model(x, sent, sessionNonce[:], s.policy)
+	if res == "ok" && c06LastEntriesOK == "fail" {
+		// registered although the entry chain does not verify — judged without the library's own VerifyEntries
+		x.r.Violate(rep.Violation{Kind: "oracle", Check: "C06.only-current-owner", Signature: "C06.registered-although-entry-chain-does-not-verify-by-the-model:" + s.what,
+			Input: input, Impl: impl, Model: model, Detail: "the chain conditions (header hash, previous-entry hash, entry signatures) evaluated from the model's obligations are not all met", PropertyFails: true})
+	}
 	if model != impl {
 		// property oracle for the disagreement: the scenario classes that withhold a listed condition
 		fails := res == "ok" && c06MustReject(s.what)
@@ -419,6 +425,10 @@ func c06MustReject(what string) bool {
 	}
 	return false
 }
+
+// c06LastEntriesOK: whether the entry chain of the last voucher judged by c06Model verifies — computed from the Lean model's
+// obligations (its own hashing of header and entries, signatures answered by the standard library), not by the library's VerifyEntries.
+var c06LastEntriesOK string
 
 // c06Model runs the three-phase query against the Lean model.
 func c06Model(x *runCtx, msg, nonce []byte, policy string) string {
@@ -465,6 +475,7 @@ func c06Model(x *runCtx, msg, nonce []byte, policy string) string {
 		return ""
 	}
 	eok := foldObligations(get(obls, "entries"), pubs)
+	c06LastEntriesOK = eok
 	sok := "0"
 	if pub, ok := pubs[get(obls, "owner")]; ok {
 		out := strings.ReplaceAll(get(obls, "sig"), ",", " ")
